@@ -186,19 +186,28 @@ Section Bounded.
              else True
     end.
 
+  (* the bound the group leaves *)
+  Fixpoint undo_bound (k : nat) (q : Z) (B : Z) (lb : lbuf) : Z :=
+    match k with
+    | O => B
+    | S f => if Nat.ltb 0 (hist_u lb) && Z.eqb (seq_at (hist lb) (hist_u lb - 1)) q
+             then undo_bound f q (B + Z.of_nat (linecount (del (nth (hist_u lb - 1) (hist lb) dflt)))) (undo1 lb)
+             else B
+    end.
+
   Lemma undo_loop_bnd q : forall k (m : mem) (blk : block) lb (l2 l3 : val) fuel' B,
     urep Tc m bl blk bh hblk lb -> undo_fits k q lb -> 0 <= B -> bnd B K m blk hblk lb -> undo_sizes k q B lb -> (hist_u lb <= k)%nat -> (k + 33 < fuel')%nat ->
     exists (m' : mem) (blk' : block) (l2' l3' : val),
       exec cx fuel' undo_while (mkst [VPtr bl 0; VInt q; l2; l3] m) = ONormal (mkst [VPtr bl 0; VInt q; l2'; l3'] m') /\
-      urep Tc m' bl blk' bh hblk (undo_loop k q lb).
+      urep Tc m' bl blk' bh hblk (undo_loop k q lb) /\ bnd (undo_bound k q B lb) K m' blk' hblk (undo_loop k q lb).
   Proof.
     induction k as [|k IH]; intros m blk lb l2 l3 fuel' B R Hfit HB0 HBnd Hsz Hk Hf; (destruct fuel' as [|fuel']; [lia|]);
       pose proof R as [Hb L I Cn Rn Cq Ch Csz Cnn Cu Cz Cl Rg Hh Hl He Ho Ht]; destruct Rg as (Rq & (Ru & Rs) & Rz & Rsz);
       rewrite undo_while_eq, exec_while, <- undo_while_eq; set (W := undo_while); unfold undo_cond, undo_while; cbn [fn_body cf_lbuf_undo];
       xstep; xfld Hb Cu; rewrite wrap_I32_id by (unfold i31 in *; lia).
-    - assert (hist_u lb = 0)%nat by lia. rewrite H. xstep. exists m, blk, l2, l3. split; [reflexivity|exact R].
-    - cbn [undo_loop]. cbn [undo_fits] in Hfit. cbn [undo_sizes] in Hsz. destruct (hist_u lb) as [|u] eqn:Eu.
-      + xstep. exists m, blk, l2, l3. split; [reflexivity|exact R].
+    - assert (hist_u lb = 0)%nat by lia. rewrite H. xstep. exists m, blk, l2, l3. split; [reflexivity|split; [exact R|exact HBnd]].
+    - cbn [undo_loop undo_bound]. cbn [undo_fits] in Hfit. cbn [undo_sizes] in Hsz. destruct (hist_u lb) as [|u] eqn:Eu.
+      + xstep. exists m, blk, l2, l3. split; [reflexivity|split; [exact R|exact HBnd]].
       + replace (Z.of_nat (S u) =? 0) with false by (symmetry; apply Z.eqb_neq; lia). xstep.
         xfld Hb Ch. xfld Hb Cu. rewrite ?Eu. rewrite wrap_I32_id by (unfold i31 in *; lia). rewrite chk_I32 by (unfold i31 in *; lia). xstep.
         replace (S u - 1)%nat with u in * by lia.
@@ -207,7 +216,7 @@ Section Bounded.
         rewrite (hc_load m bh hblk (9 * u + 6) _ Hh) by (try rewrite Hl; lia). rewrite Es. xstep. rewrite (wrap_I32_id _ Rsq).
         change (Nat.ltb 0 (S u)) with true in *. cbn [andb] in *. unfold seq_at in *.
         destruct (Z.eqb_spec (seq (nth u (hist lb) dflt)) q) as [Eq|Nq]; xstep.
-        2:{ exists m, blk, l2, l3. split; [reflexivity|exact R]. }
+        2:{ exists m, blk, l2, l3. split; [reflexivity|split; [exact R|exact HBnd]]. }
         destruct Hfit as [Hsp Hfit]. destruct Hsz as [Hok Hsz].
         destruct (undo_step_bnd m blk lb q l2 l3 (S fuel') B R ltac:(lia) ltac:(lia) HB0 HBnd) as (m3 & blk3 & C3 & R3 & HB3);
           [rewrite Eu; replace (S u - 1)%nat with u by lia; exact Hsp|rewrite Eu; replace (S u - 1)%nat with u by lia; exact Hok|].
@@ -216,18 +225,19 @@ Section Bounded.
         assert (Hu1 : undo1 lb = lbuf_replace (set_hu lb u) (del (nth u (hist lb) dflt)) (pos (nth u (hist lb) dflt)) (n_ins (nth u (hist lb) dflt)))
           by (unfold undo1; rewrite Eu; replace (S u - 1)%nat with u by lia; reflexivity).
         assert (HB0' : 0 <= B + Z.of_nat (linecount (del (nth u (hist lb) dflt)))) by lia.
-        destruct (IH m3 blk3 (undo1 lb) (VInt 32) (VPtr bh (Z.of_nat (9 * u))) fuel' _ R3 Hfit HB0' HB3 Hsz) as (m' & blk' & l2' & l3' & C' & R'); try lia.
+        destruct (IH m3 blk3 (undo1 lb) (VInt 32) (VPtr bh (Z.of_nat (9 * u))) fuel' _ R3 Hfit HB0' HB3 Hsz) as (m' & blk' & l2' & l3' & C' & R' & HB'); try lia.
         { rewrite Hu1. cbn [lbuf_replace set_ln set_hu hist_u]. lia. }
         subst W. rewrite C'.
-        exists m', blk', l2', l3'. split; [reflexivity|exact R'].
+        exists m', blk', l2', l3'. split; [reflexivity|split; [exact R'|exact HB']].
   Qed.
 
-  Theorem tr_lbuf_undo_bounded (m : mem) (blk : block) lb B : urep Tc m bl blk bh hblk lb -> undo_ok lb -> 0 <= B -> bnd B K m blk hblk lb ->
+  Theorem tr_lbuf_undo_bounded_b (m : mem) (blk : block) lb B : urep Tc m bl blk bh hblk lb -> undo_ok lb -> 0 <= B -> bnd B K m blk hblk lb ->
     undo_sizes (hist_u lb) (seq_at (hist lb) (hist_u lb - 1)) B lb -> (hist_u lb + 33 < fuel)%nat ->
     match UndoDefs.lbuf_undo lb with
     | None => callx ext cprog fuel (S (S (S (S d)))) F_lbuf_undo [VPtr bl 0] m = Ok (VInt 1, m)
     | Some lb' => exists (m' : mem) (blk' : block),
-                    callx ext cprog fuel (S (S (S (S d)))) F_lbuf_undo [VPtr bl 0] m = Ok (VInt 0, m') /\ urep Tc m' bl blk' bh hblk lb'
+                    callx ext cprog fuel (S (S (S (S d)))) F_lbuf_undo [VPtr bl 0] m = Ok (VInt 0, m') /\ urep Tc m' bl blk' bh hblk lb' /\
+                    bnd (undo_bound (hist_u lb) (seq_at (hist lb) (hist_u lb - 1)) B lb) K m' blk' hblk lb'
     end.
   Proof.
     intros R Hok HB0 HBnd Hsz Hf. pose proof R as [Hb L I Cn Rn Cq Ch Csz Cnn Cu Cz Cl Rg Hh Hl He Ho Ht]. destruct Rg as (Rq & (Ru & Rs) & Rz & Rsz).
@@ -238,8 +248,8 @@ Section Bounded.
       assert (Hui : (u < length (hist lb))%nat) by lia.
       pose proof (He u Hui) as E. destruct E as [_ _ _ _ _ _ Es _ (_ & _ & _ & Rsq)].
       unfold undo_ok in Hok. rewrite Eu in Hok. replace (S u - 1)%nat with u in * by lia.
-      destruct (undo_loop_bnd (seq_at (hist lb) u) (S u) m blk lb VUndef VUndef fuel B R Hok HB0 HBnd Hsz ltac:(lia) ltac:(lia)) as (m' & blk' & l2' & l3' & C & R').
-      exists m', blk'. split; [|exact R'].
+      destruct (undo_loop_bnd (seq_at (hist lb) u) (S u) m blk lb VUndef VUndef fuel B R Hok HB0 HBnd Hsz ltac:(lia) ltac:(lia)) as (m' & blk' & l2' & l3' & C & R' & HB').
+      exists m', blk'. split; [|split; [exact R'|exact HB']].
       rewrite callx_S. cbn [nth_error cprog F_lbuf_undo cf_lbuf_undo fn_nparams fn_nlocals fn_body length Nat.eqb Nat.sub repeat app].
       xstep. xfld Hb Cu. rewrite ?Eu. rewrite wrap_I32_id by (unfold i31 in *; lia).
       replace (Z.of_nat (S u) =? 0) with false by (symmetry; apply Z.eqb_neq; lia). cbn [negb]. xstep.
@@ -311,23 +321,31 @@ Section Bounded.
              else True
     end.
 
+  Fixpoint redo_bound (k : nat) (q : Z) (B : Z) (lb : lbuf) : Z :=
+    match k with
+    | O => B
+    | S f => if Nat.ltb (hist_u lb) (length (hist lb)) && Z.eqb (seq_at (hist lb) (hist_u lb)) q
+             then redo_bound f q (B + Z.of_nat (linecount (ins (nth (hist_u lb) (hist lb) dflt)))) (redo1 lb)
+             else B
+    end.
+
   Lemma redo_loop_bnd q : forall k (m : mem) (blk : block) lb (l2 : val) fuel' B,
     urep Tc m bl blk bh hblk lb -> redo_fits k q lb -> 0 <= B -> bnd B K m blk hblk lb -> redo_sizes k q B lb ->
     (length (hist lb) - hist_u lb <= k)%nat -> (k < fuel')%nat ->
     exists (m' : mem) (blk' : block) (l2' : val),
       exec cx fuel' redo_while (mkst [VPtr bl 0; VInt q; l2] m) = ONormal (mkst [VPtr bl 0; VInt q; l2'] m') /\
-      urep Tc m' bl blk' bh hblk (redo_loop k q lb).
+      urep Tc m' bl blk' bh hblk (redo_loop k q lb) /\ bnd (redo_bound k q B lb) K m' blk' hblk (redo_loop k q lb).
   Proof.
     induction k as [|k IH]; intros m blk lb l2 fuel' B R Hfit HB0 HBnd Hsz Hk Hf; (destruct fuel' as [|fuel']; [lia|]);
       pose proof R as [Hb L I Cn Rn Cq Ch Csz Cnn Cu Cz Cl Rg Hh Hl He Ho Ht]; destruct Rg as (Rq & (Ru & Rs) & Rz & Rsz);
       rewrite redo_while_eq, exec_while, <- redo_while_eq; set (W := redo_while); unfold redo_cond, redo_while; cbn [fn_body cf_lbuf_redo];
       xstep; xfld Hb Cu; xfld Hb Cnn; rewrite !wrap_I32_id by (unfold i31 in *; lia).
     - destruct (Z.ltb_spec (Z.of_nat (hist_u lb)) (Z.of_nat (length (hist lb)))); [lia|]. xstep.
-      exists m, blk, l2. split; [reflexivity|exact R].
-    - cbn [redo_loop]. cbn [redo_fits] in Hfit. cbn [redo_sizes] in Hsz.
+      exists m, blk, l2. split; [reflexivity|split; [exact R|exact HBnd]].
+    - cbn [redo_loop redo_bound]. cbn [redo_fits] in Hfit. cbn [redo_sizes] in Hsz.
       destruct (Nat.ltb_spec (hist_u lb) (length (hist lb))) as [Hlt|Hge]; cbn [andb] in *.
       2:{ destruct (Z.ltb_spec (Z.of_nat (hist_u lb)) (Z.of_nat (length (hist lb)))); [lia|]. xstep.
-          exists m, blk, l2. split; [reflexivity|exact R]. }
+          exists m, blk, l2. split; [reflexivity|split; [exact R|exact HBnd]]. }
       destruct (Z.ltb_spec (Z.of_nat (hist_u lb)) (Z.of_nat (length (hist lb)))); [|lia]. xstep.
       xfld Hb Ch. xfld Hb Cu. rewrite wrap_I32_id by (unfold i31 in *; lia). xstep.
       set (u := hist_u lb) in *.
@@ -336,24 +354,25 @@ Section Bounded.
       rewrite (hc_load m bh hblk (9 * u + 6) _ Hh) by (try rewrite Hl; lia). rewrite Es. xstep. rewrite (wrap_I32_id _ Rsq).
       unfold seq_at in *.
       destruct (Z.eqb_spec (seq (nth u (hist lb) dflt)) q) as [Eq|Nq]; xstep.
-      2:{ exists m, blk, l2. split; [reflexivity|exact R]. }
+      2:{ exists m, blk, l2. split; [reflexivity|split; [exact R|exact HBnd]]. }
       destruct Hfit as [Hsp Hfit]. destruct Hsz as [Hok Hsz].
       destruct (redo_step_bnd m blk lb q l2 (S fuel') B R Hlt HB0 HBnd Hsp Hok) as (m3 & blk3 & C3 & R3 & HB3). fold u in C3, HB3.
       rewrite C3.
       assert (Hu1 : redo1 lb = lbuf_replace (set_hu lb (S u)) (ins (nth u (hist lb) dflt)) (pos (nth u (hist lb) dflt)) (n_del (nth u (hist lb) dflt)))
         by reflexivity.
       assert (HB0' : 0 <= B + Z.of_nat (linecount (ins (nth u (hist lb) dflt)))) by lia.
-      destruct (IH m3 blk3 (redo1 lb) (VPtr bh (Z.of_nat (9 * u))) fuel' _ R3 Hfit HB0' HB3 Hsz) as (m' & blk' & l2' & C' & R'); try lia.
+      destruct (IH m3 blk3 (redo1 lb) (VPtr bh (Z.of_nat (9 * u))) fuel' _ R3 Hfit HB0' HB3 Hsz) as (m' & blk' & l2' & C' & R' & HB'); try lia.
       { rewrite Hu1. cbn [lbuf_replace set_ln set_hu hist_u hist]. lia. }
-      subst W. rewrite C'. exists m', blk', l2'. split; [reflexivity|exact R'].
+      subst W. rewrite C'. exists m', blk', l2'. split; [reflexivity|split; [exact R'|exact HB']].
   Qed.
 
-  Theorem tr_lbuf_redo_bounded (m : mem) (blk : block) lb B : urep Tc m bl blk bh hblk lb -> redo_ok lb -> 0 <= B -> bnd B K m blk hblk lb ->
+  Theorem tr_lbuf_redo_bounded_b (m : mem) (blk : block) lb B : urep Tc m bl blk bh hblk lb -> redo_ok lb -> 0 <= B -> bnd B K m blk hblk lb ->
     redo_sizes (length (hist lb) - hist_u lb) (seq_at (hist lb) (hist_u lb)) B lb -> (length (hist lb) - hist_u lb < fuel)%nat ->
     match UndoDefs.lbuf_redo lb with
     | None => callx ext cprog fuel (S (S (S (S d)))) F_lbuf_redo [VPtr bl 0] m = Ok (VInt 1, m)
     | Some lb' => exists (m' : mem) (blk' : block),
-                    callx ext cprog fuel (S (S (S (S d)))) F_lbuf_redo [VPtr bl 0] m = Ok (VInt 0, m') /\ urep Tc m' bl blk' bh hblk lb'
+                    callx ext cprog fuel (S (S (S (S d)))) F_lbuf_redo [VPtr bl 0] m = Ok (VInt 0, m') /\ urep Tc m' bl blk' bh hblk lb' /\
+                    bnd (redo_bound (length (hist lb) - hist_u lb) (seq_at (hist lb) (hist_u lb)) B lb) K m' blk' hblk lb'
     end.
   Proof.
     intros R Hok HB0 HBnd Hsz Hf. pose proof R as [Hb L I Cn Rn Cq Ch Csz Cnn Cu Cz Cl Rg Hh Hl He Ho Ht]. destruct Rg as (Rq & (Ru & Rs) & Rz & Rsz).
@@ -362,8 +381,8 @@ Section Bounded.
       xstep. xfld Hb Cu. xfld Hb Cnn. rewrite !wrap_I32_id by (unfold i31 in *; lia). rewrite Eu, Z.eqb_refl. xstep. reflexivity.
     - assert (Hlt : (hist_u lb < length (hist lb))%nat) by lia.
       pose proof (He _ Hlt) as E. destruct E as [_ _ _ _ _ _ Es _ (_ & _ & _ & Rsq)].
-      destruct (redo_loop_bnd (seq_at (hist lb) (hist_u lb)) (length (hist lb) - hist_u lb) m blk lb VUndef fuel B R Hok HB0 HBnd Hsz ltac:(lia) ltac:(lia)) as (m' & blk' & l2' & C & R').
-      exists m', blk'. split; [|exact R'].
+      destruct (redo_loop_bnd (seq_at (hist lb) (hist_u lb)) (length (hist lb) - hist_u lb) m blk lb VUndef fuel B R Hok HB0 HBnd Hsz ltac:(lia) ltac:(lia)) as (m' & blk' & l2' & C & R' & HB').
+      exists m', blk'. split; [|split; [exact R'|exact HB']].
       rewrite callx_S. cbn [nth_error cprog F_lbuf_redo cf_lbuf_redo fn_nparams fn_nlocals fn_body length Nat.eqb Nat.sub repeat app].
       xstep. xfld Hb Cu. xfld Hb Cnn. rewrite !wrap_I32_id by (unfold i31 in *; lia).
       destruct (Z.eqb_spec (Z.of_nat (hist_u lb)) (Z.of_nat (length (hist lb)))); [lia|]. xstep.
@@ -373,5 +392,28 @@ Section Bounded.
       unfold seq_at in C. fold cx.
       match goal with |- context [exec cx fuel (SWhile ?c ?b) ?st] => change (exec cx fuel (SWhile c b) st) with (exec cx fuel redo_while st) end.
       rewrite C. xstep. reflexivity.
+  Qed.
+  (* the statements without the final bound *)
+  Theorem tr_lbuf_undo_bounded (m : mem) (blk : block) lb B : urep Tc m bl blk bh hblk lb -> undo_ok lb -> 0 <= B -> bnd B K m blk hblk lb ->
+    undo_sizes (hist_u lb) (seq_at (hist lb) (hist_u lb - 1)) B lb -> (hist_u lb + 33 < fuel)%nat ->
+    match UndoDefs.lbuf_undo lb with
+    | None => callx ext cprog fuel (S (S (S (S d)))) F_lbuf_undo [VPtr bl 0] m = Ok (VInt 1, m)
+    | Some lb' => exists (m' : mem) (blk' : block),
+                    callx ext cprog fuel (S (S (S (S d)))) F_lbuf_undo [VPtr bl 0] m = Ok (VInt 0, m') /\ urep Tc m' bl blk' bh hblk lb'
+    end.
+  Proof.
+    intros R Hok HB0 HBnd Hsz Hf. pose proof (tr_lbuf_undo_bounded_b m blk lb B R Hok HB0 HBnd Hsz Hf) as U.
+    destruct (UndoDefs.lbuf_undo lb); [|exact U]. destruct U as (m' & blk' & C & R' & _). exists m', blk'. split; assumption.
+  Qed.
+  Theorem tr_lbuf_redo_bounded (m : mem) (blk : block) lb B : urep Tc m bl blk bh hblk lb -> redo_ok lb -> 0 <= B -> bnd B K m blk hblk lb ->
+    redo_sizes (length (hist lb) - hist_u lb) (seq_at (hist lb) (hist_u lb)) B lb -> (length (hist lb) - hist_u lb < fuel)%nat ->
+    match UndoDefs.lbuf_redo lb with
+    | None => callx ext cprog fuel (S (S (S (S d)))) F_lbuf_redo [VPtr bl 0] m = Ok (VInt 1, m)
+    | Some lb' => exists (m' : mem) (blk' : block),
+                    callx ext cprog fuel (S (S (S (S d)))) F_lbuf_redo [VPtr bl 0] m = Ok (VInt 0, m') /\ urep Tc m' bl blk' bh hblk lb'
+    end.
+  Proof.
+    intros R Hok HB0 HBnd Hsz Hf. pose proof (tr_lbuf_redo_bounded_b m blk lb B R Hok HB0 HBnd Hsz Hf) as U.
+    destruct (UndoDefs.lbuf_redo lb); [|exact U]. destruct U as (m' & blk' & C & R' & _). exists m', blk'. split; assumption.
   Qed.
 End Bounded.
